@@ -52,34 +52,49 @@ class C20(Prop):
     thorough_n = 6000
     search_n = 1500
     design_ref = "5/C20"
-    technique = ("Lean 4 proof (invariant + per-step oracle clauses, induction over histories, all master policies as oracle "
-                 "functions) + translator-generated option macros + model/implementation correspondence on the real driver")
+    technique = ("Lean 4 proof (invariant + per-segment oracle clauses, induction over histories and over the nesting fuel, all master "
+                 "policies as oracle functions) + translator (clang AST -> regenerated guards, statement-order shapes, inventory of "
+                 "every uid/euid write in the driver, bridged by Lean lemmas) + model/implementation correspondence on the real driver")
     level_text = ("Lean 4 theorems about an executable model of give_uid_to_object, the euid tests of load_object/clone_object "
-                  "(master exemption), f_seteuid, f_export_uid, f_getuid/f_geteuid and reload_object: for every history of "
-                  "load/clone/seteuid/export_uid/destruct/reload_object by any objects (also from inside create() of objects under "
-                  "construction, also of virtual objects made by master::compile_object) and every master policy the "
-                  "specification oracle judgeEv accepts the model's event trace; the model is tied to the source by the "
-                  "regenerated AUTO_TRUST_BACKBONE/AUTO_SETEUID options and by running the real driver (ASan+UBSan) with a "
-                  "policy-switchable logging master and the model on the same generated histories; the same oracle judges "
-                  "every implementation trace")
-    level_note = ("trusted: Lean kernel; extract.py; the correspondence harness (differential, only the generated histories); "
-                  "master applies are oracle functions (a master that calls back into the acting object during an apply is not "
-                  "modelled); master/simul_efun reload and function-pointer geteuid are not modelled")
-    rule = ("cases = corpus + known-finding inputs + boundary list + seeded random histories of load/clone/seteuid(string|int)/"
-            "export_uid (also onto itself / onto missing objects)/destruct (also of the master = master reload)/reload_object, "
-            "directly, from inside create() of objects under construction (acyclic scripts, nesting up to 8), through function "
-            "pointers evaluated by other objects, and on virtual paths answered by master::compile_object, "
-            "performed by the master and by objects under five directories whose "
+                  "(master exemption, none for the simul_efun object), f_seteuid, f_export_uid, f_getuid/f_geteuid, f_bind (master "
+                  "valid_bind), reload_object and set_master (first load with/without get_root_uid()/get_bb_uid(), reload with a "
+                  "changed get_root_uid() answer): for every history of load/clone/seteuid/export_uid/destruct/reload_object/"
+                  "function-pointer evaluation/bind() by any objects incl. the master and the simul_efun object (also from inside "
+                  "create() of objects under construction, also of virtual objects made by master::compile_object, also with a "
+                  "master whose creator_file calls back into itself and drops its euid mid-creation) and every master policy the "
+                  "specification oracle judgeEv (8 clauses) accepts the model's event trace; the model is tied to the source by 26 "
+                  "regenerated bridging lemmas: path conditions of the euid tests, MASTER_APPROVED semantics, interleaved statement "
+                  "order of f_seteuid/f_export_uid/f_bind/set_master/reload_object/load_object/clone_object/give_uid_to_object, and an "
+                  "inventory of EVERY write to object_t.uid/euid in src/ and lib/ with a Lean-checked table that each falls under an "
+                  "enumerated rule and is dominated by the master apply it needs; and by running the real driver (ASan+UBSan) with a "
+                  "policy-switchable logging master (8 variants) and the model on the same generated histories; the same oracle "
+                  "judges every implementation trace")
+    level_note = ("trusted: Lean kernel; extract.py and props/c20_extract.py (clang-14 AST translator, source text scan); the "
+                  "correspondence harness (differential, only the generated histories); master applies are oracle functions; a "
+                  "master calling back into ANOTHER creating object during creator_file, call_out/heart_beat/preload/connect "
+                  "contexts, shadows and the uid AVL tree are outside the model")
+    rule = ("cases = corpus + boundary list + seeded random histories of load/clone/seteuid(string|int)/"
+            "export_uid (also onto itself / onto missing objects)/destruct (also of the master = master reload, also after "
+            "get_root_uid()/get_bb_uid() changed their answers; of the simul_efun object)/reload_object, directly, from inside create() "
+            "of objects under construction (acyclic scripts, nesting up to 8), through function pointers evaluated by other objects, "
+            "through efun pointers re-bound with bind() (valid_bind verdicts), and on virtual paths answered by "
+            "master::compile_object, performed by the master, the simul_efun object and objects under five directories whose "
             "creator_file answer (own name, other user's name, backbone uid, root uid, NONAME, empty string, int, array, 0, "
-            "runtime error) and valid_seteuid verdicts (1, 0, other ints, string, array, 0, runtime error; per object and uid) "
-            "are switched during the case; a case is non-trivial when its trace has >= 2 lines; distinct = distinct "
-            "canonical implementation trace")
+            "runtime error, each optionally after the master dropped its own euid inside the apply) and valid_seteuid / valid_bind "
+            "verdicts (1, 0, other ints, string, array, 0, runtime error; per object and uid) are switched during the case; one "
+            "case in four under another configuration (master without get_root_uid / get_bb_uid / valid_bind, simul_efun object as "
+            "actor); a case is non-trivial when its trace has >= 2 lines; distinct = distinct canonical implementation trace")
     not_covered = ["the branch of clone_object that re-uses an unreferenced virtual object instead of asking compile_object again (ob->ref == 1) cannot occur with registered objects and is not modelled",
-                   "reload of the simul_efun object, reload_object(master), a master without get_root_uid()/get_bb_uid() (cfg.bb = none is proved but not run), bind(), "
-                   "loads started by the driver itself without a current_object (preload, connect(); the translator tie `tie_load_no_current` covers the guard) and creation from call_out/heart_beat are not exercised",
-                   "a master apply that calls back into the creating object (e.g. makes it seteuid(0) during creator_file) is not modelled",
-                   "the simul_efun object has uid NONAME / euid 0 and no exemption in load_object/clone_object; it is not an actor in the harness",
-                   "geteuid(function) is not exercised",
+                   "loads started by the driver itself without a current_object (preload, connect(); the translator tie `tie_load_no_current` covers the guard) and creation from "
+                   "call_out/heart_beat contexts are not exercised (the euid tests read only current_object: regenerated guards mention nothing else)",
+                   "a master apply that calls back into a creating object OTHER than the master (e.g. makes a wizard's object seteuid(0) during creator_file) is not modelled: "
+                   "the object would still be created (give_uid_to_object does not re-test); only the master's callback into itself is run and proved",
+                   "a master without get_root_uid() is not reloaded in the harness (its uids would come from an unlogged creator_file answer of the old master); "
+                   "reload_object(master) and destruct of the simul_efun object are refused by harness / driver and only that refusal is compared",
+                   "bind() is exercised with efun pointers (find_object(path, 1) / clone_object) only; simul_efun pointers and the "
+                   "FP_NOT_BINDABLE refusals are pinned by tie_bind_shape but not run; f_bind copies the reference count of the old pointer (leak, not a uid matter)",
+                   "uid records (userid_t, AVL tree, add_uid / uidcmp) are modelled as names: valid because no record is ever renamed after the first master load (tie_uid_records_never_renamed)",
+                   "shadows, hidden objects, 'Cannot clone from a clone', inherit chains (load_object restarts itself and so repeats its test) and valid_object are not modelled",
                    "load_object leaves a never-created object in the object table when valid_object/creator_file raise (C08 territory); "
                    "the model mirrors it (`half`), only its uid is repaired by the second fix: commit"]
 
@@ -554,7 +569,7 @@ class C20(Prop):
              "noeuid_clone_error": 0, "compile_object_calls": 0, "virtual_handed_out": 0, "funptr_ops": 0, "funptr_noeuid_refused": 0,
              "master_reloads": 0, "master_reload_refused": 0, "export_onto_self": 0, "nested_ops": 0, "nested_creations": 0, "nested_noeuid_refused": 0, "max_nesting": 0, "backbone_grants": 0, "policy_errors": 0, "nobj": 0, "reloads": 0,
              "crash": 0, "cfg_nobb": 0, "cfg_noroot": 0, "cfg_novb": 0, "cfg_simul": 0, "simul_actor_ops": 0, "simul_dest_error": 0, "cf_callback_drops": 0,
-             "bind_ops": 0, "bind_asked": 0, "bind_denied": 0, "bind_self": 0}
+             "bind_ops": 0, "bind_asked": 0, "bind_denied": 0}
         for c in cases:
             for f in self.cfg_key(c):
                 h["cfg_" + f] += 1
